@@ -14,15 +14,15 @@ except ImportError:
 ID = "C14"
 LEVEL = "proof"
 LEAN_MODULES = ["OsmoVerif.Props.C14", "OsmoVerif.Props.Trxcon"] + (trxd_part.C14_LEAN_MODULES if trxd_part else [])
-LEAN_MODEL_MODULES = wc.LEAN_MODEL_MODULES + trxcon_part.LEAN_MODEL_MODULES
+LEAN_MODEL_MODULES = wc.LEAN_MODEL_MODULES + trxcon_part.LEAN_MODEL_MODULES + (trxd_part.LEAN_MODEL_MODULES if trxd_part else [])
 DRIVER_MODULES = ["World", "TrxconIf"] + (trxd_part.DRIVER_MODULES if trxd_part else [])
 ASSUMPTIONS = wc.ASSUMPTIONS + trxcon_part.ASSUMPTIONS + [
     "memory safety of the compiled trx_if.c is evidence from sanitizer runs (ASan+UBSan, MSan twin), the theorem (trxc_rsp_no_crash, trxd_rx_in_bounds) is about index arithmetic of the model with explicit capacities",
     "Sane-world theorems need data datagrams to be octet strings (elements < 256) and operations to address existing transceivers (typing hypotheses of the model, not of the code)",
     "the exception path of `tick` in the model rolls back the failing transceiver's locked section (the real clock thread dies there); unreachable for Sane worlds by tick_never_raises",
-]
+] + (trxd_part.ASSUMPTIONS if trxd_part else [])
 MANIFEST = {
-    "text": "Lean theorems: handle_rx never raises and sends at most one reply for ANY datagram, malformed control input leaves the world unchanged, recv_data_msg never raises and drops malformed messages without effect, Sane (resolve total, thresholds >= 0, drop period >= 1, queued messages byte-valued) holds for built worlds and is preserved by every operation, so no tick and no history ever raises (run_never_raises); trxcon: cReadCb never crashes / reads uninitialised values for any datagram and pending command, trx_data_rx_cb stays inside its buffers; the TRXD parser signals only ValueError and the capture reader is total (codec modules). Ties: world histories with fuzzed datagrams vs the real objects; real trx_if.c vs its model under sanitizers. Oracles: metamorphic (a session with malformed datagrams behaves like the same session without them, no exception escapes), sanitizer-clean decoding on the C side",
+    "text": "Lean theorems: handle_rx never raises and sends at most one reply for ANY datagram, malformed control input leaves the world unchanged, recv_data_msg never raises and drops malformed messages without effect, Sane (resolve total, thresholds >= 0, drop period >= 1, queued messages byte-valued) holds for built worlds and is preserved by every operation, so no tick and no history ever raises (run_never_raises); trxcon: cReadCb never crashes / reads uninitialised values for any datagram and pending command, trx_data_rx_cb stays inside its buffers; parsers (Props/C14Parsers): TxMsg/RxMsg.parse_msg on ANY octets return or signal ValueError only (parse_only_valueerror_tx/_rx, exact rejection conditions parse_tx_rejects_iff/parse_rx_rejects_iff), recv_tx_msg/recv_rx_msg never raise and give None for every rejected datagram and every version mismatch (recv_swallows_*, recv_version_mismatch_*), DATADumpFile.parse_msg/parse_all never raise on any content/idx/skip/count (dump_reader_total_*, dump_false_is_rejected_payload), and datagrams / reads leave nothing behind in the interface / reader object (parser_no_state_if, parser_no_state_dump). Ties: world histories with fuzzed datagrams vs the real objects; real trx_if.c vs its model under sanitizers. parser models vs the real TxMsg/RxMsg/DATAInterface/DATADumpFile on structured mutations of valid encodings and capture files (props/trxd_part.py). Oracles: metamorphic (a session with malformed datagrams behaves like the same session without them, no exception escapes), sanitizer-clean decoding on the C side, and on the real parsers/reader: only ValueError out of parse_msg, message-or-None out of recv_*, None/False/list out of the capture reader, valid datagrams/records after garbage decoded as the layout prescribes",
     "note": "trusted: Lean kernel (+propext, Classical.choice, Quot.sound), translators, harnesses (world, trxcon shim_trxif environment replacing libosmocore: talloc/logging/fsm/timer/osmo_fd), sanitizers as evidence for the binary; modelled: UDP, select loop, time.sleep (FAKE_TRXC_DELAY with an astronomically large value would raise OverflowError from time.sleep — outside the model), libc sscanf semantics (differentially tested)",
     "technique": "Lean 4 proof of exception-freedom on failure-tagged models (invariant over all histories) + differential/metamorphic fuzzing of the real Python objects and the sanitizer-instrumented real C",
     "design_ref": "DESIGN.md section 5 C14, section 10",
@@ -62,7 +62,7 @@ def replay(run, path):
             still, text = trxcon_part.replay(run, w)
             print(text)
             bad += bool(still)
-        elif trxd_part and str(w.get("kind", "")).startswith("trxd-"):
+        elif trxd_part and str(w.get("kind", "")).startswith(("trxd-", "parser-", "dump-")):
             still, text = trxd_part.replay(run, w)
             print(text)
             bad += bool(still)
